@@ -33,7 +33,7 @@ Theorem C01_dispatch_float r gk chunks ng m nt :
   kernel_value_reducer r -> sum_needs_no_nulls fops r -> (0 < nt)%nat -> chunks <> [] ->
   length gk = length (concat chunks) -> wf_mask (length gk) m -> covered chunks m ->
   group_func_wrap fops r gk chunks ng m nt = Ok (P fops r ng (sel_rows fops gk (concat chunks) m)).
-Proof. exact (group_func_wrap_any_split fops fops_laws fops_sum_closed r gk chunks ng m nt). Qed.
+Proof. exact (group_func_wrap_any_split fops fops_laws r gk chunks ng m nt). Qed.
 Print Assumptions C01_dispatch_float.
 
 (* 3. mean = sum / count of the same rows, null when no non-null value was selected *)
